@@ -18,7 +18,9 @@ le = pick(lambda c: c["kind"] == "lev" and c["rows"] == 5 and c["flavour"] == "l
 lx = pick(lambda c: c["kind"] == "levexact" and len(c["idxs"]) == 3 and c["pad"] == 2)
 mg = pick(lambda c: c["kind"] == "exact" and c["R"] == 3 and c["M"] == 2 and c["b"] == 0 and c["s"] == 6 and c["p"] == [2, 3, 1])
 mg["id"] = "good-magnified"
-good = [ex, ge, me, le, lx, mg]
+cx = pick(lambda c: c["kind"] == "exact" and c["R"] == 3 and c["M"] == 2 and c["b"] == 0 and c["s"] == 8 and c["p"] == [2, 3, 1])
+cx["id"] = "good-complex"
+good = [ex, ge, me, le, lx, mg, cx]
 evs, want = list(good), {}
 def swp(l): l[0], l[1] = l[1], l[0]
 def mut(base, name, clause, f):
@@ -39,6 +41,9 @@ mut(mg, "mag-corr-swap", "CorrMax", lambda e: e["corr_swap"].__setitem__("max_sc
 mut(mg, "mag-permute-raised", "PermuteRaised", lambda e: e["permute"][0].update(raised=True, perm=[]))
 mut(mg, "mag-eqf", "PermuteFactors", lambda e: e["permute"][0].__setitem__("eqf", False))
 mut(mg, "mag-eqw", "PermuteWeights", lambda e: e["permute"][2].__setitem__("eqw", False))
+mut(cx, "complex-corr", "CorrMax", lambda e: e["corr"].__setitem__("max_score", 250000))
+mut(cx, "complex-stacked", "CorrZeroIffStacked", lambda e: e["corr_swap"].__setitem__("stacked", 90000))
+mut(cx, "complex-extra-cong", "CongForms", lambda e: e["cong"].append({"abs": True, "form": "list", "swap": False, "raised": False, "val": 1000000, "perm": [0, 1, 2]}))
 mut(ge, "gen-val", "CongValueOfPerm", lambda e: e["cong"][0].__setitem__("val", e["cong"][0]["val"] + 60))
 mut(ge, "gen-corr", "CorrStacked", lambda e: e["corr"].__setitem__("stacked", e["corr"]["stacked"] + 10))
 mut(ge, "gen-corravg", "CorrAvg", lambda e: e["corr"].__setitem__("avg_score", e["corr"]["avg_score"] + 10))
